@@ -38,6 +38,21 @@ FACILITY_RICH_SHARE = {"C13": 0.7, "C04": 0.4, "C03": 0.3, "C06": 0.4, "C14": 0.
 USE_PAIRS = ("C01", "C02", "C06")
 
 
+def pick_variant(prop, rng, scale=1.0):
+    r = rng.random()
+    shares = [("resim", 0.10), ("resume", 0.16 if prop == "C02" else 0.10), ("keeplog", 0.06), ("edit_resim", 0.06),
+              ("edits", 0.08 if prop in ("C07", "C13", "C14") else 0.0),
+              ("reversed", 0.06 if prop == "C07" else 0.0),   # reverse_log_information() after the run, then the cost passes
+              ("json_resume", 0.08 if prop == "C13" else 0.06),   # simulate(max_time=k), write/read JSON, resume the restored project
+              ("backward_first", 0.10 if prop == "C13" else 0.05)]  # backward_simulate(), then a monitored simulate() on the same objects
+    acc = 0.0
+    for name, share in shares:
+        acc += share * scale
+        if r < acc:
+            return name
+    return "single"
+
+
 def make_case(prop, seed, i, tier):
     rng = rng_for(prop, seed, i)
     big = tier == "thorough"
@@ -51,7 +66,10 @@ def make_case(prop, seed, i, tier):
     if r < 0.12:
         name = rng.choice(sorted(fixtures()))
         spec = G.perturb_fixture(rng, fixtures()[name])
-        return dict(prop=prop, i=i, source="fixture:" + name, spec=spec)
+        # half of the fixture models go through one of the short histories as well
+        variant = pick_variant(prop, rng) if rng.random() < 0.5 else "single"
+        return dict(prop=prop, i=i, source="fixture:" + name + ("+" + variant if variant != "single" else ""), spec=spec,
+                    variant=variant, vseed=rng.randrange(10 ** 9))
     if r < 0.22 and prop in ("C01", "C02", "C06", "C03", "C07"):
         spec = G.shape_chains(rng, 1)[0]
         if rng.random() < 0.5:
@@ -71,26 +89,33 @@ def make_case(prop, seed, i, tier):
     if rng.random() < FACILITY_RICH_SHARE.get(prop, 0.3):
         kw["facility_rich"] = True
     spec = G.gen_random(rng, G.profile(**kw))
+    if rng.random() < 0.06:
+        G.add_idle_parts(rng, spec)
+    elif prop == "C07" and len(spec["teams"]) >= 2 and rng.random() < 0.12:
+        # a worker on loan: listed (and paid) by one team, working for the tasks of another one
+        b = rng.randrange(len(spec["teams"]))
+        a = rng.choice([x for x in range(len(spec["teams"])) if x != b])
+        if spec["teams"][b]["workers"] and spec["teams"][a]["targets"]:
+            w = rng.choice(spec["teams"][b]["workers"])
+            w["loan_team"] = a
+            for ti in spec["teams"][a]["targets"]:
+                w["skills"].setdefault(spec["tasks"][ti]["name"], 1.0)
+            if w["cost"] <= 0:
+                w["cost"] = 2.0
     # a share of the models goes through a short history instead of one plain run:
     #   resim      simulate() twice on the same objects (fresh monitors for the second run)
     #   resume     simulate(max_time=k) + resume with both initialisations off (same monitors)
     #   keeplog    simulate() + simulate(initialize_log_info=False) (logs appended; fresh monitors)
     #   edit_resim simulate(), edit per-resource absence lists in place, simulate() again
     #   edits      simulate(), then remove/insert_absence_time_list edits, then the log-only passes
-    r = rng.random()
-    variant = "single"
-    if r < 0.10:
-        variant = "resim"
-    elif r < 0.20:
-        variant = "resume"
-    elif r < 0.26:
-        variant = "keeplog"
-    elif r < 0.32:
-        variant = "edit_resim"
-    elif r < 0.40 and prop in ("C07", "C13", "C14"):
-        variant = "edits"
-    elif r < 0.46 and prop == "C07":
-        variant = "reversed"          # reverse_log_information() after the run, then the cost passes
+    #   json_resume / backward_first: see below; resume edits parameters in place between pause and resume
+    #   in 40 % of its cases
+    variant = pick_variant(prop, rng)
+    if prop == "C13" and variant == "backward_first":
+        # conveyor links matter here: both directions of the same links are exercised on the same objects
+        for k in range(1, len(spec["wps"])):
+            if not spec["wps"][k]["inputs"] and rng.random() < 0.7:
+                spec["wps"][k]["inputs"].append(rng.randrange(0, k))
     return dict(prop=prop, i=i, source="random" + ("-frich" if kw.get("facility_rich") else "") + ("+" + variant if variant != "single" else ""),
                 spec=spec, variant=variant, vseed=rng.randrange(10 ** 9))
 
@@ -115,6 +140,32 @@ def monitors_for(prop):
             return [M.MonC14()]
         raise KeyError(prop)
     return mk
+
+
+def carry_over(old_mons, new_mons, p_old, p_new):
+    """Monitor memory that spans steps (where a component was, which assemblies were split, when a task
+    started, which component states were seen) follows the model through a save/load: objects are
+    matched by ID."""
+    new_by_id = {}
+    for o in list(p_new.workflow.task_list) + list(p_new.product.component_list) + list(p_new.organization.workplace_list):
+        new_by_id[o.ID] = o
+
+    def r(o):
+        return None if o is None else new_by_id.get(o.ID)
+    old_by_pyid = {}
+    for o in list(p_old.product.component_list):
+        old_by_pyid[id(o)] = o
+    for a, b in zip(old_mons, new_mons):
+        if isinstance(a, M.MonC13):
+            for nm in ("loc", "last_kind", "prev_loc"):
+                src = getattr(a, nm)
+                setattr(b, nm, {r(k): (r(v) if hasattr(v, "ID") else v) for k, v in src.items() if r(k) is not None})
+            b.split = set(id(r(old_by_pyid[i])) for i in a.split if i in old_by_pyid and r(old_by_pyid[i]) is not None)
+        elif isinstance(a, M.MonC06):
+            b.started_at = {r(k): v for k, v in a.started_at.items() if r(k) is not None}
+        elif isinstance(a, M.MonC14):
+            b.seen_non_none = set(r(c) for c in a.seen_non_none if r(c) is not None)
+            b.seen_finished = set(r(c) for c in a.seen_finished if r(c) is not None)
 
 
 def nontrivial(prop, spec, c, project):
@@ -181,6 +232,13 @@ def run_case(case):
         with I.tracing(tr):
             try:
                 B.run(m.project, spec, max_time=k)
+                if vr.random() < 0.5:
+                    from . import edits as E
+                    # (the offline log passes of C04 / C07 read skills, fixed lists and rates as static)
+                    skip = {"C04": ("skill", "fskill", "skill_busy", "fskill_busy", "fixed", "solo"), "C07": ("cost", "fcost")}.get(prop, ())
+                    more = {"C02": ("skill_busy", "skill_busy", "skill_busy", "fskill_busy", "skill"), "C03": ("absence_append", "solo"), "C13": ("fskill", "solo")}.get(prop, ())
+                    spec, _what = E.edit(vr, spec, m, n=vr.randint(1, 4), only=[x for x in E.MID_RUN + more if x not in skip])
+                    res.count("resume_with_parameter_edits")
                 B.run(m.project, spec, initialize_state_info=False, initialize_log_info=False)
             except Exception as e:
                 err = exc_info(e)
@@ -191,6 +249,82 @@ def run_case(case):
         if err is not None:
             res["aborted"] = err
             placement_exception(m, tr, err)
+            return res
+    elif variant == "json_resume":
+        # pause, save, load into a new BaseProject, resume the restored objects under fresh monitors
+        # that are primed with the restored state as "the previous recorded step"
+        I.install()
+        I.set_order(case.get("order") or I.default_order(spec))
+        m = B.build(spec)
+        started = M.StartedSnap()
+        tr = I.Tracer([started] + list(monitors_for(prop)(started)))
+        k = vr.choice([1, 2, 3, 5, 8, 13])
+        err = None
+        with I.tracing(tr):
+            try:
+                B.run(m.project, spec, max_time=k)
+            except Exception as e:
+                err = exc_info(e)
+            if err is None:
+                tr.end(m.project)
+        res.absorb(tr, props=(prop,))
+        if err is not None:
+            res["aborted"] = err
+            placement_exception(m, tr, err)
+            return res
+        h = Hist(spec, order=False, model=m)
+        e = h.do(["saveload"])
+        if e is not None:
+            res["aborted"] = e
+            return res
+        q = h.p
+        started = M.StartedSnap()
+        for t in q.workflow.task_list:
+            if any(x in (M.TS.WORKING, M.TS.FINISHED) for x in t.state_record_list):
+                started.started.add(t)
+        tr2 = I.Tracer([started] + list(monitors_for(prop)(started)))
+        carry_over(tr.monitors, tr2.monitors, m.project, q)
+        tr2.state_reset = False
+        if q.time > 0:
+            snap = I.Snap(q, "recorded", (q.time - 1) in q.absence_time_list)
+            snap.step = q.time - 1
+            tr2.prev_rec = snap
+            tr2.last = {"recorded": snap}
+        tr2.log_base = len(q.cost_list)
+        with I.tracing(tr2):
+            try:
+                B.run(q, spec, initialize_state_info=False, initialize_log_info=False)
+            except Exception as e:
+                err = exc_info(e)
+            if err is None:
+                tr2.end(q)
+        res.absorb(tr2, props=(prop,))
+        res.count("json_resumed_runs")
+        res.count("steps", tr.phase_counts.get("recorded", 0) + tr2.phase_counts.get("recorded", 0))
+        if err is not None:
+            res["aborted"] = err
+            placement_exception(m, tr2, err)
+            return res
+
+        class _M(object):
+            project = q
+        m = _M()
+    elif variant == "backward_first":
+        I.install()
+        I.set_order(case.get("order") or I.default_order(spec))
+        m = B.build(spec)
+        h = Hist(spec, order=False, model=m)
+        e = h.do(["backward", vr.random() < 0.5, vr.random() < 0.5])
+        if e is not None:
+            res["aborted"] = e
+            return res
+        tr2, err2 = resimulate(m, spec, monitors_for(prop))
+        res.absorb(tr2, props=(prop,))
+        res.count("simulate_after_backward_runs")
+        res.count("steps", tr2.phase_counts.get("recorded", 0))
+        if err2 is not None:
+            res["aborted"] = err2
+            placement_exception(m, tr2, err2)
             return res
     else:
         end_now = variant not in ("edits", "reversed")
